@@ -1,9 +1,9 @@
 import Ebv.Driver.Io
 import Ebv.Model.PktVar
+import Ebv.Model.PktSeq
 open Ebv Ebv.Io Ebv.PktVar Lean
 
-def parseFmt (j : Json) : Option Fmt := do
-  let s ← fStr j "fmt"
+def parseFmtStr (s : String) : Option Fmt := do
   let cs := s.toList
   let (o, c) ← match cs with
     | [c] => some (Order.native, c)
@@ -15,9 +15,73 @@ def parseFmt (j : Json) : Option Fmt := do
     | 'b' => some 1 | 'h' => some 2 | 'i' => some 4 | 'q' => some 8 | _ => none
   pure ⟨n, c.isLower, o⟩
 
+def parseFmt (j : Json) : Option Fmt := do parseFmtStr (← fStr j "fmt")
+
+/-- a reference `["v", i]` (variable i: packet variable at its offset, or the i-th local slot) or `["a", letter, pos]`
+(packet array element), with its format -/
+def parseRef (vars : List (String × Fmt × Nat)) (j : Json) : Option (Fmt × Ref) := do
+  match ← jArr j with
+  | [t, i] =>
+    if (← jStr t) != "v" then none
+    let i ← jNat i
+    let (kind, f, off) ← vars[i]?
+    pure (f, if kind == "p" then Ref.pkt off else Ref.loc i)
+  | [t, l, p] =>
+    if (← jStr t) != "a" then none
+    pure (← parseFmtStr (← jStr l), Ref.pkt (← jNat p))
+  | _ => none
+
+def parseStmt (vars : List (String × Fmt × Nat)) (j : Json) : Option Stmt := do
+  let a ← jArr j
+  let t ← jStr (← a[0]?)
+  if t == "copy" then
+    let (df, d) ← parseRef vars (← a[1]?)
+    let (sf, s) ← parseRef vars (← a[2]?)
+    pure (.copy df d sf s)
+  else if t == "via" then
+    let (df, d) ← parseRef vars (← a[1]?)
+    let (sf, s) ← parseRef vars (← a[2]?)
+    pure (.via df d sf s (← jBool (← a[3]?)) (← jNat (← a[4]?)))
+  else if t == "iadd" then
+    let (df, d) ← parseRef vars (← a[1]?)
+    let (sf, s) ← parseRef vars (← a[2]?)
+    pure (.iadd df d sf s ((← jInt (← a[3]?)) < 0))
+  else if t == "const" then
+    let (df, d) ← parseRef vars (← a[1]?)
+    pure (.const df d ((← jInt (← a[2]?)) % (2 ^ 64 : Int)).toNat)
+  else if t == "iaddc" then
+    let (df, d) ← parseRef vars (← a[1]?)
+    pure (.iaddc df d (← jInt (← a[2]?)))
+  else if t == "read" then
+    let (sf, s) ← parseRef vars (← a[2]?)
+    pure (.read (← jNat (← a[1]?)) sf s (← jBool (← a[3]?)))
+  else none
+
+def parseVar (j : Json) : Option (String × Fmt × Nat) := do
+  match ← jArr j with
+  | [k, f, o] => pure (← jStr k, ← parseFmtStr (← jStr f), ← jNat o)
+  | _ => none
+
+def insertReg (e : Nat × Nat) : List (Nat × Nat) → List (Nat × Nat)
+  | [] => [e]
+  | x :: xs => if e.1 ≤ x.1 then e :: x :: xs else x :: insertReg e xs
+
+/-- a whole program on one packet: `<packet> <local,local,…> <k=v,…>` -/
+def seqStep (j : Json) : Option String := do
+  let vars ← (← fArr j "vars").mapM parseVar
+  let sts ← (← fArr j "stmts").mapM (parseStmt vars)
+  let m : Mem := ⟨← fBytes j "pkt", vars.map fun (k, f, _) => if k == "l" then Ebv.Bytes.zeros f.n else []⟩
+  let m' := execAll sts m
+  let rs := (execAllRegs sts m []).foldr insertReg []
+  let locs := (vars.zip m'.loc).filterMap fun ((k, _, _), b) => if k == "l" then some (hexOfBytes b) else none
+  pure (hexOfBytes m'.pkt ++ " " ++ ",".intercalate locs ++ " " ++ ",".intercalate (rs.map fun (k, v) => s!"{k}={v}"))
+
 def step (j : Json) : Option String := do
-  let f ← parseFmt j
   let op ← fStr j "op"
+  if op == "seq" then
+    seqStep j
+  else
+  let f ← parseFmt j
   if op == "read" then
     pure (toString (readReg f (← fBool j "long") (← fBytes j "bytes")))
   else if op == "write" then
